@@ -1,6 +1,7 @@
 package sym
 
 import (
+	"go/token"
 	"fmt"
 	"go/types"
 	"os"
@@ -21,6 +22,36 @@ type Program struct {
 	Pkgs     map[string]*ssa.Package
 	LoadTime time.Duration
 	Overlay  map[string]string // virtual path -> real path
+
+	refOnce    sync.Once
+	referenced map[*ssa.Global]bool // globals some function uses other than by loading from them
+}
+
+// writtenGlobals: package-level variables that any function of the program (init
+// functions included) refers to in any way other than a direct load - stores, address
+// escapes, calls on their address. A variable outside this set keeps the value it has at
+// program start; if its package's init never mentions it either, that is the zero value.
+func (p *Program) writtenGlobals() map[*ssa.Global]bool {
+	p.refOnce.Do(func() {
+		p.referenced = map[*ssa.Global]bool{}
+		for fn := range ssautil.AllFunctions(p.Prog) {
+			for _, b := range fn.Blocks {
+				for _, in := range b.Instrs {
+					for _, op := range in.Operands(nil) {
+						g, ok := (*op).(*ssa.Global)
+						if !ok {
+							continue
+						}
+						if u, isLoad := in.(*ssa.UnOp); isLoad && u.Op == token.MUL && u.X == g {
+							continue // plain load
+						}
+						p.referenced[g] = true
+					}
+				}
+			}
+		}
+	})
+	return p.referenced
 }
 
 // RepoDir is the tree the checks run against: /repo. (VERIF_REPO may point the
@@ -247,10 +278,18 @@ func (p *Program) newExec(h *Harness, b *Builder, s *Solver) *Exec {
 		if strings.HasPrefix(path, ModPath) {
 			e.Cfg.InitPkgs[path] = true
 		}
+		// A package whose initialisation is not executed: its variables are poison, except
+		// those that no function of the program (init included) ever stores to or takes the
+		// address of - they have no initialiser, so they hold the zero value for ever
+		// (e.g. encoding/binary.BigEndian).
+		var touched map[*ssa.Global]bool
+		if !inited {
+			touched = p.writtenGlobals()
+		}
 		for _, m := range sp.Members {
 			if g, ok := m.(*ssa.Global); ok {
 				var cell Value
-				if inited || g.Name() == "init$guard" || zeroOKGlobals[path+"."+g.Name()] {
+				if inited || g.Name() == "init$guard" || zeroOKGlobals[path+"."+g.Name()] || (touched != nil && !touched[g]) {
 					cell = e.zero(deref(g.Type()))
 				} else {
 					cell = Poison{What: path + "." + g.Name()}
